@@ -15,7 +15,10 @@ SHARD = 120
 
 RULE = ("case = (tensor tree of depth 1-3 with rank shapes 1-5 incl. explicit zeros, empty sub-fibers, empty and "
         "all-zero tensors; one descriptor in {U,C,B}^depth - every tree is paired with all 3^depth descriptors; "
-        "imposed shape absent or >= the tensor shape per rank; lookup queries -1..max dim+1); observation = "
+        "imposed shape absent or >= the tensor shape per rank; lookup queries -1..max dim+1; plus a history "
+        "stream: tensor WITHOUT a declared shape built by getPayloadRef point insertion in two stages, between "
+        "which its shape is read / it is encoded once / its fibers are queried, the second stage growing the "
+        "extent - the model's shapes are the final extents); observation = "
         "payloads_root, coords_/payloads_ arrays per rank, and for every encoded fiber object of every level: "
         "format, coords, occupancies, leaf payloads, len(payloads), the slice scan through setupSlice/nextInSlice/"
         "handleToCoord/handleToPayload/payloadToValue, coordToHandle(q) per query, getSize(). distinct = distinct "
@@ -71,6 +74,65 @@ def mk_case(rng, tree, shapes, desc):
             "queries": list(range(-1, top + 2))}
 
 
+def all_points(tree, prefix=()):
+    """every stored leaf (incl. explicit zeros) as [point, value], in stored order"""
+    out = []
+    for c, sub in tree:
+        if isinstance(sub, int):
+            out.append([list(prefix) + [c], sub])
+        else:
+            out += all_points(sub, prefix + (c,))
+    return out
+
+
+def est_shapes(tree, depth):
+    """extent of the stored coordinates per rank (what a tensor without a declared shape reports)"""
+    sh = [0] * depth
+
+    def walk(t, k):
+        for c, sub in t:
+            sh[k] = max(sh[k], c + 1)
+            if not isinstance(sub, int):
+                walk(sub, k + 1)
+    walk(tree, 0)
+    return sh
+
+
+MIDS = ["tensor_shape", "encode", "root_shape", "touch", "leaf_shape", "none"]
+
+
+def gen_grown(rng):
+    """T3/T4: a tensor WITHOUT a declared shape, built by point insertion in two stages; between the stages
+    its shape is read / it is encoded once / its fibers are queried; the second stage usually inserts
+    beyond the extent seen at that time.  The case's tree is the final tree, its shapes the final extents."""
+    while True:
+        depth = rng.choice([1, 2, 2, 3])
+        dims = [rng.randint(2, 6) for _ in range(depth)]
+        tree = U.gen_fiber(rng, depth, dims, 0, p_emptysub=0.0, p_zero=rng.choice([0.0, 0.0, 0.2]))
+        pts = all_points(tree)
+        if len(pts) >= 2:
+            break
+    tree = tree_of(pts)      # insertion never leaves an empty interior fiber behind
+    shapes = est_shapes(tree, depth)
+    order = list(pts)
+    r = rng.random()
+    if r < 0.6:
+        # stage 2 holds the largest coordinates of some rank: the extent grows after the read
+        k_rank = rng.randrange(depth)
+        order.sort(key=lambda pv: (pv[0][k_rank], rng.random()))
+    else:
+        rng.shuffle(order)
+    k = rng.randint(1, len(order) - 1)
+    build = {"order": order, "k": k, "mid": rng.choice(MIDS)}
+    fam = []
+    for d in itertools.product(FMTS, repeat=depth):
+        r = rng.random()
+        imposed = None if r < 0.8 else [s_ + rng.choice([0, 1, 2]) for s_ in shapes]
+        fam.append({"tree": tree, "desc": "".join(d), "shapes": shapes, "imposed": imposed,
+                    "queries": list(range(-1, max(imposed or shapes) + 2)), "build": build})
+    return fam
+
+
 def gen_family(rng, depth=None):
     tree, shapes = gen_tree(rng, depth)
     return [mk_case(rng, tree, shapes, d) for d in itertools.product(FMTS, repeat=len(shapes))]
@@ -107,6 +169,11 @@ def streams(tier, rng):
             cases.append({"tree": top, "desc": "".join(d), "shapes": [3, dim], "imposed": None,
                           "queries": [-1, 0, 1, dim // 2, dim - 1, dim]})
     yield ("wide-fibers", cases, False)
+    # T3/T4: no declared shape, built by insertion, read / encoded once, grown, then encoded
+    cases = []
+    for _ in range(14 if tier == "quick" else 200):
+        cases += gen_grown(rng)
+    yield ("grown-by-insertion-no-declared-shape", cases, False)
     if tier == "thorough":
         # exhaustive small scope: depth 2, shape 2x2; per interior coordinate absent / empty /
         # each leaf fiber over {absent, 0, v}^2; all 9 descriptors; natural and imposed shape
@@ -134,7 +201,8 @@ def describe(case):
                        ("equal" if case["imposed"] == case["shapes"] else "larger"),
             "explicit_zero": U.has_explicit_default(case["tree"], 0),
             "empty_subfiber": U.has_empty_sub(case["tree"], 0),
-            "all_zero": not U.content(case["tree"], 0)}
+            "all_zero": not U.content(case["tree"], 0),
+            "build": ("insertion/" + case["build"]["mid"]) if "build" in case else "fromFiber+declared shape"}
 
 
 def case_to_coq(c):
@@ -153,8 +221,54 @@ class _Cache(dict):
         return dict.get(self, k, d)
 
 
+def _build_by_insertion(case, depth):
+    """Tensor(rank_ids=...) without a shape + getPayloadRef(point) <<= value, in two stages around a read"""
+    from fibertree import Tensor, Codec
+    b = case["build"]
+    T = Tensor(rank_ids=U.RANK_NAMES[:depth])
+
+    def store(items):
+        for pt, v in items:
+            ref = T.getRoot().getPayloadRef(*pt)
+            ref <<= U.dress(v)
+    store(b["order"][:b["k"]])
+    mid = b["mid"]
+    if mid == "tensor_shape":
+        T.getShape()
+    elif mid == "root_shape":
+        T.getRoot().getShape()
+    elif mid == "leaf_shape":
+        f = T.getRoot()
+        while f.payloads and hasattr(f.payloads[0], "coords"):
+            f = f.payloads[0]
+        f.getShape()
+        f.getShape(all_ranks=False)
+    elif mid == "touch":
+        U.touch(T.getRoot())
+        for rk in T.ranks:
+            for f in list(rk.getFibers()):
+                U.touch(f)
+    elif mid == "encode":
+        ranks = T.getRankIds()
+        codec = Codec(tuple(case["desc"]), [True] * depth)
+        out = codec.get_output_dict(ranks)
+        try:
+            codec.encode(-1, T.getRoot(), ranks, out, [[] for _ in range(depth + 1)], shape=None)
+        except Exception:
+            pass
+    store(b["order"][b["k"]:])
+    return T
+
+
+def _z(x):
+    """an integer word of an array; integral floats / int subclasses are their value, anything else is kept
+    (coqlit marks it, so it differs from every model observation)"""
+    x = U.undress(x)
+    return int(x) if isinstance(x, int) else x
+
+
 def _o(x):
-    return [] if x is None else [int(x)]
+    return [] if x is None else [_z(x)]
 
 
 def run_impl(case):
@@ -163,7 +277,10 @@ def run_impl(case):
     from fibertree.codec.formats.coord_list import CoordinateList
     from fibertree.codec.formats.bitvector import Bitvector
     depth = len(case["shapes"])
-    T = U.build_tensor(case["tree"], depth, case["shapes"], 0)
+    if "build" in case:
+        T = _build_by_insertion(case, depth)
+    else:
+        T = U.build_tensor(case["tree"], depth, case["shapes"], 0)
     ranks = T.getRankIds()
     codec = Codec(tuple(case["desc"]), [True] * depth)
     out = codec.get_output_dict(ranks)
@@ -172,7 +289,7 @@ def run_impl(case):
     arrays = []
     for r in ranks:
         arrays.append([[int(x) for x in out["coords_" + r.lower()]],
-                       [int(x) for x in out["payloads_" + r.lower()]]])
+                       [_z(x) for x in out["payloads_" + r.lower()]]])
     levels = []
     cache = _Cache()
     for lvl in range(1, depth + 1):
@@ -182,7 +299,7 @@ def run_impl(case):
             f.cache = cache
             code = 0 if isinstance(f, Uncompressed) else 1 if isinstance(f, CoordinateList) else \
                 2 if isinstance(f, Bitvector) else 9
-            vals = [int(p) for p in f.payloads] if leaf else []
+            vals = [_z(p) for p in f.payloads] if leaf else []
             # slice scan through the fiber's own handle interface
             f.setupSlice(0)
             scan = []
@@ -225,8 +342,54 @@ def repro_py(case):
                 len(case["shapes"]) + 1, case["imposed"]))
 
 
+def tree_of(order):
+    """tree literal holding exactly the inserted points (coordinates sorted)"""
+    def ins(t, pt, v):
+        for e in t:
+            if e[0] == pt[0]:
+                if len(pt) > 1:
+                    ins(e[1], pt[1:], v)
+                else:
+                    e[1] = v
+                return
+        t.append([pt[0], v if len(pt) == 1 else []])
+        t.sort(key=lambda e: e[0])
+        if len(pt) > 1:
+            ins([e for e in t if e[0] == pt[0]][0][1], pt[1:], v)
+    t = []
+    for pt, v in order:
+        ins(t, pt, v)
+    return t
+
+
 def shrinks(case):
     import copy
+    if "build" in case:
+        # the tree and the shapes are functions of the insertion history: shrink the history
+        b = case["build"]
+        depth = len(case["shapes"])
+        for i in range(len(b["order"])):
+            if len(b["order"]) <= 2:
+                break
+            c = copy.deepcopy(case)
+            del c["build"]["order"][i]
+            k = b["k"] - (1 if i < b["k"] else 0)
+            c["build"]["k"] = min(max(k, 1), len(c["build"]["order"]) - 1)
+            c["tree"] = tree_of(c["build"]["order"])
+            c["shapes"] = est_shapes(c["tree"], depth)
+            if c["imposed"] is not None:
+                c["imposed"] = [max(a, b_) for a, b_ in zip(c["imposed"], c["shapes"])]
+            yield c
+        if case["imposed"] is not None:
+            c = copy.deepcopy(case)
+            c["imposed"] = None
+            yield c
+        if len(case["queries"]) > 1:
+            for i in range(len(case["queries"])):
+                c = copy.deepcopy(case)
+                del c["queries"][i]
+                yield c
+        return
     t = case["tree"]
     for i in range(len(t)):
         c = copy.deepcopy(case)
